@@ -4,6 +4,7 @@
 # repository test suite and the demo (with/without), then runs the check against that worktree
 # (VERIF_REPO) and reports whether a VIOLATION line was printed. Removes the worktree afterwards.
 set -u
+HERE=$(cd "$(dirname "$0")/.." && pwd)
 SEED=$(readlink -f "$1"); PROP=$2; TIER=${3:-quick}; FULL=${4:-}
 WT=/tmp/try_$$_$(basename "$SEED")
 git -C /repo worktree add -q --detach "$WT" HEAD || exit 2
@@ -19,7 +20,7 @@ if [ -n "$FULL" ]; then
     (cd "$WT" && PYTHONPATH="$WT" timeout 300 /venv/bin/python "$SEED/demo.py" >/dev/null 2>&1); echo "demo with patch: exit $?"
   fi
 fi
-cd /verif
+cd "$HERE"
 OUT=$(VERIF_REPO="$WT" VERIF_EVIDENCE_DIR=/tmp/try_ev_$$ /venv/bin/python check.py "$PROP" --tier "$TIER" 2>&1); RC=$?
 echo "$OUT" | grep -E "^VIOLATION|clause=|^\[|HARNESS" | head -${SHOW:-8} | cut -c1-260
 echo "check $PROP ($TIER) exit=$RC  => $( [ $RC -eq 1 ] && echo DETECTED || echo MISSED )"
